@@ -40,9 +40,54 @@ def check_order(case, fracs):
     return bad, nontrivial, tags
 
 
+def _impl_session(cases):
+    """several assets in ONE run: rp2_main creates the accounting-method objects once and shares them between all assets,
+    so whatever a method object remembers from one asset is still there for the next"""
+    methods = {}
+    return [hist.impl_compute(c, full=False, methods=methods) for c in cases]
+
+
+def sessions(out, base, tier, replay=None):
+    """the lot order of an asset must not depend on which assets were processed before it in the same run"""
+    rng = core.Rng(core.seed(), 11)
+    if replay is not None:
+        groups = [replay["session"]]
+    else:
+        ok = [c for c, i in zip(base["cases"], base["impl"]) if "ok" in i and len(c["ins"]) >= 2]
+        n = 250 if tier == "quick" else 4000
+        groups = []
+        for _ in range(min(n, len(ok) // 3)):
+            m = rng.choice(hist.METHS[1:])
+            g = []
+            for _k in range(rng.range(2, 3)):
+                c = dict(rng.choice(ok))
+                c["sched"] = [[1970, m]]
+                g.append(c)
+            groups.append(g)
+    res = core.pool_map(_impl_session, groups, init=core.impl_env_setup)
+    nbad = 0
+    for g, rs in zip(groups, res):
+        for k, (c, r) in enumerate(zip(g, rs)):
+            if "ok" not in r:
+                continue
+            bad, _nt, tags = check_order(c, [(f["ev"], f["lot"], f["amt"]) for f in r["ok"]["fractions"]])
+            if bad and "same-instant-different-year" not in tags:
+                nbad += 1
+                out.violation(f"asset {k + 1} of {len(g)} processed in one run (shared accounting-method objects): " + bad[0],
+                              {"session": g[:k + 1]}, tags={"order", "multi-asset-session"})
+                break
+    return len(groups)
+
+
 def run(tier, build, replay=None):
     out = core.Outcome("C01", tier)
     proofs = core.check_proofs(build, "C01.v")
+    if replay and "session" in replay:
+        core.impl_env_setup()
+        n = sessions(out, None, tier, replay)
+        core.proofs_verdict(out, proofs, build, "C01.v")
+        out.coverage.update({"evaluations": n, "distinct_nontrivial": n, "rule": "replay of a multi-asset session"})
+        return out.finish(proofs, build)
     if replay:
         data = {"cases": [replay], "impl": [hist.impl_compute(replay)] if core.impl_env_setup() else None}
         data["model"] = core.run_model([hist.line(10, hist.encode_hist(replay))])
@@ -71,8 +116,10 @@ def run(tier, build, replay=None):
                     pass
             out.violation(f"model and implementation disagree on the lot pairing: impl {str(iv)[:300]} / model {str(mv)[:300]}",
                           c, tags={"correspondence"}, found_input=False)
+    n_sessions = sessions(out, data, tier) if not replay else 0
     core.proofs_verdict(out, proofs, build, "C01.v")
     out.coverage.update({
+        "multi_asset_sessions": n_sessions,
         "evaluations": len(data["cases"]),
         "distinct_nontrivial": len(nontriv),
         "rule": "generated single-asset histories (1-30 rows, all 14 types, equal instants ~30%, mixed offsets 25%, partial lots, exact exhaustion, "
